@@ -27,15 +27,15 @@ def supported(d, cfg):
     return True
 
 # ---------------------------------------------------------------- building
-def build_one(name, cfg, flags=(), tag=""):
+def build_one(name, cfg, flags=(), tag="", fe="functor"):
     d = load_def(name)
     os.makedirs(BUILD, exist_ok=True)
-    base = os.path.join(BUILD, "%s.%s%s" % (name, cfg, tag))
-    src = gen.emit_cpp(d, cfg)
+    base = os.path.join(BUILD, "%s.%s%s%s" % (name, cfg, "" if fe == "functor" else "." + fe, tag))
+    src = gen.emit_cpp(d, cfg, fe=fe)
     cpp = base + ".cpp"
     if not os.path.exists(cpp) or open(cpp).read() != src:
         open(cpp, "w").write(src)
-    std = "-std=c++20" if cfg.startswith("mp11") else "-std=c++17"
+    std = "-std=c++20" if (cfg.startswith("mp11") or fe == "puml") else "-std=c++17"
     env = dict(os.environ); env["CCACHE_DIR"] = os.path.join(VERIF, ".ccache"); env.setdefault("CCACHE_MAXSIZE", "2G")
     cmd = ["ccache", "g++", std, "-O0", "-DNDEBUG", "-w", "-I" + REPO_INC, "-I" + os.path.join(VERIF, "gen", "rt")] + list(flags) + ["-o", base, cpp]
     t0 = time.time()
@@ -49,10 +49,10 @@ def build_one(name, cfg, flags=(), tag=""):
         raise ToolError("link failed for %s.%s:\n%s" % (name, cfg, r.stderr[-2000:]))
     return base, time.time() - t0
 
-def build_many(pairs, flags=(), tag=""):
+def build_many(pairs, flags=(), tag="", fe="functor"):
     out = {}
     with cf.ThreadPoolExecutor(max_workers=NPROC) as ex:
-        futs = {ex.submit(build_one, n, c, flags, tag): (n, c) for n, c in pairs}
+        futs = {ex.submit(build_one, n, c, flags, tag, fe): (n, c) for n, c in pairs}
         for f in cf.as_completed(futs):
             out[futs[f]] = f.result()[0]
     return out
